@@ -1,7 +1,7 @@
 """C07 — isomorphism test: blank nodes equal at every depth, early exits, symmetric treatment of both arguments."""
 import re
 from core import CheckError
-from mirutil import (call_name_matches, provenance, bool_switch, edge_dominates, enumerate_paths, blocks_with_agg,
+from mirutil import (is_identity_rewrap, call_name_matches, provenance, bool_switch, edge_dominates, enumerate_paths, blocks_with_agg,
                      comes_from_call, TRANSPARENT)
 
 LEVEL = "other"
@@ -273,6 +273,9 @@ def colour_rule(ck, facts):
                 if call_name_matches(t, r"iter::Iterator::fold$") and len(t["args"]) >= 3:
                     o = c.origin(t["args"][2])
                     step = facts.fns.get(o[1]["def"]) if o[0] == "agg" and o[1].get("k") == "closure" else None
+                    if o[0] == "const" and o[1].get("kind") == "fn" and re.search(r"wrapping_add", o[1].get("def", "") + o[1].get("ty", "")):
+                        add = True          # `.fold(0, u64::wrapping_add)`
+                        continue
                     ok_step = step is not None and (
                         any(re.search(r"num::<impl u64>::wrapping_add$", (tt["f"].get("name") or "")) for _, tt in step.calls())
                         or any(st[0] == "=" and st[2][0] == "bin" and st[2][1] in ("Add", "AddWithOverflow", "AddUnchecked", "BitXor") for b in step.blocks for st in b["s"]))
@@ -465,7 +468,7 @@ def run(ck, facts, tier):
     if gfn is not None:
         fw = [t for _, t in gfn.calls() if call_name_matches(t, r"dataset::isomorphic_datasets$")]
         asd = [t for _, t in gfn.calls() if call_name_matches(t, r"Graph>?::as_dataset$")]
-        ok = len(fw) == 1 and len(asd) == 2 and fw[0]["dest"] == [0]
+        ok = len(fw) == 1 and len(asd) == 2 and (fw[0]["dest"] == [0] or is_identity_rewrap(gfn, fw[0]))
         if ok:
             a0 = comes_from_call(gfn, fw[0]["args"][0], r"Graph>?::as_dataset$")
             a1 = comes_from_call(gfn, fw[0]["args"][1], r"Graph>?::as_dataset$")
